@@ -15,14 +15,14 @@ def small_scope(table, quick):
     """Every collection / string / object function on every tuple of a small universe with all counts 0..size+1 (the N = 0, N = size, N > size cases)."""
     out = []
     colls = ['[]', '[1]', '[1, 2, 3]', '["b", "a", "c", "a"]', '{}', '{"a": 1}', '{"a": 1, "b": 2, "c": 3}', '""', '"a"', '"abc"', '"héé日"', '5', 'null', '.missing']
-    counts = ['0', '1', '2', '3', '4', '5', '-1', '1.5', '"1"', 'null', '.missing']
+    counts = ['0', '1', '2', '3', '4', '5', '-1', '1.5', '"1"', 'null', '.missing', '-0', '0.0', '2.0', '-0.0']
     for f in ("take", "take_last", "head", "tail", "get"):
         for cv in colls:
             for n in counts:
                 out.append("(%s %s %s)" % (f, cv, n))
     for cv in colls:
-        for a in counts[:7]:
-            for b in counts[:7]:
+        for a in counts[:7] + ['-0']:
+            for b in counts[:7] + ['-0']:
                 out.append("(sub %s %s %s)" % (cv, a, b))
     for f in ("size", "first", "last", "pop", "pop_first", "reverese", "sort", "sort_unique", "keys", "values", "entries", "indexed", "sum", "all", "any",
               "sort_by_keys", "sort_by_values", "stringify", "join", "abs", "ceil", "floor", "round", "not", "empty?", "array?", "string?", "as_array", "as_object"):
